@@ -1748,7 +1748,7 @@ impl FWorld {
             }
         }
         let mut w = World {
-            reps, roots, tags: Tags::default(), known: HashMap::new(), log: Vec::new(), next_char: 0x4E00, next_val: 1000, offset,
+            reps, roots, tags: Tags::default(), known: HashMap::new(), log: Vec::new(), next_char: 0x4E00, wide: false, next_astral: 0x20000, nfresh: 0, next_val: 1000, offset,
             rng: Rng::new(seed), followers, ext: HashMap::new(), cfg: cfg.clone(),
         };
         yx::ext::init(&mut w);
